@@ -142,6 +142,20 @@ func repair(m protoreflect.Message, depth int) {
 			}
 		}
 	}
+	// message-level rules of the generator's one form (this.a <= this.b / this.a >= this.b): equal values satisfy both
+	if mo, ok := m.Descriptor().Options().(*descriptorpb.MessageOptions); ok && mo != nil && proto.HasExtension(mo, validate.E_Message) {
+		for _, r := range proto.GetExtension(mo, validate.E_Message).(*validate.MessageRules).GetCel() {
+			parts := strings.Fields(r.GetExpression())
+			if len(parts) != 3 {
+				continue
+			}
+			fa := fs.ByName(protoreflect.Name(strings.TrimPrefix(parts[0], "this.")))
+			fb := fs.ByName(protoreflect.Name(strings.TrimPrefix(parts[2], "this.")))
+			if fa != nil && fb != nil && fa.Kind() == fb.Kind() {
+				m.Set(fa, m.Get(fb))
+			}
+		}
+	}
 }
 
 func clampI(m protoreflect.Message, fd protoreflect.FieldDescriptor, gte int64, hasHi bool, lte int64, hasLo bool) {
@@ -187,6 +201,41 @@ func clampF(m protoreflect.Message, fd protoreflect.FieldDescriptor, gte float64
 	} else {
 		m.Set(fd, protoreflect.ValueOfFloat64(v))
 	}
+}
+
+func countEmpty(xs []string) int {
+	n := 0
+	for _, x := range xs {
+		if x == "" {
+			n++
+		}
+	}
+	return n
+}
+
+// dropUnmatched removes the empty entries of want and as many entries of got that match no named entry of want.
+func dropUnmatched(got, want []string) ([]string, []string) {
+	named := map[string]int{}
+	var w []string
+	for _, x := range want {
+		if x != "" {
+			named[x]++
+			w = append(w, x)
+		}
+	}
+	spare := len(want) - len(w)
+	var g []string
+	for _, x := range got {
+		if named[x] > 0 {
+			named[x]--
+			g = append(g, x)
+		} else if spare > 0 {
+			spare--
+		} else {
+			g = append(g, x)
+		}
+	}
+	return g, w
 }
 
 var subscriptRe = regexp.MustCompile(`\[[^\]]*\]`)
@@ -550,6 +599,14 @@ func buildC10(e *engine, p *rt.Package) {
 							}
 						}
 						sort.Strings(got)
+						// a violated rule of the message as a whole has no field to name (the reference path is empty):
+						// what the server puts there is not specified, only that the violation is listed
+						if n := countEmpty(wantViolations); n > 0 {
+							if len(got) != len(wantViolations) {
+								t.Fatalf("%s: %d violations listed, %d expected (%d of them of the message as a whole): %v vs %v", desc, len(got), len(wantViolations), n, got, wantViolations)
+							}
+							got, wantViolations = dropUnmatched(got, wantViolations)
+						}
 						if strings.Join(got, "|") != strings.Join(wantViolations, "|") {
 							t.Fatalf("%s: violations name %v, expected the dotted proto field paths / header names %v\nrequest: %s", desc, got, wantViolations, pjson(req))
 						}
